@@ -228,6 +228,8 @@ STAGES['C08'] = {
         # the message grows between two signed renders: the signature part of the earlier render must not survive
         ('grows-between-renders', 'Smime', scfg(MAXP='2', MAXE='1', MAXA='1', ENCS='{"qp"}', SMIMES=KEYS2B,
                                                  OPSEQS='{<<"WriteTo", "AddAlt", "WriteTo">>, <<"Reader", "AddAlt", "File", "AddAlt", "WriteTo">>, <<"AddAlt", "WriteTo", "WriteTo">>}')),
+        # files handed over as readers that are not at their start
+        ('reader-at-offset', 'Smime', scfg(MAXP='1', MAXE='1', MAXA='1', ENCS='{"qp"}', SMIMES=KEYS2, SRCS='<<"readeroff", "reader">>', CCS='<<"crlf", "size300">>', ROTS='{0, 1}')),
         ('histories', 'Smime', scfg(MAXP='2', MAXE='1', MAXA='1', ENCS='{"qp"}', SMIMES=KEYS2B,
                                      OPSEQS='{<<a, b, c>> : a \\in {"WriteTo", "Reader", "FailSinkLate", "SkipMw"}, b \\in {"Write", "File", "FailSinkMid", "UpdateReader", "SkipMw", "Sendmail"}, c \\in {"WriteTo", "TempFile", "SkipMw"}}')),
     ],
@@ -267,6 +269,10 @@ STAGES['C01']['thorough'] += [('call-sequences-len4', 'MsgCalls', dict(MAXCALLS=
 STAGES['C12']['quick'].append(
     ('signed-producers-and-sinks', 'MimeBuild', cfg(MAXP='2', MAXE='1', MAXA='1', ENCS='{"qp", "8bit"}', SMIMES='{[key |-> "ecdsa", inter |-> FALSE]}',
                                                     FAULTS=PRODFAULTS + ' \\cup {[kind |-> "sink", slot |-> 0, when |-> ""]}', CCS='<<"crlf", "utf8">>')))
+# destinations that are files of the operating system which cannot take the message (read-only handle, closed handle, /dev/full)
+STAGES['C12']['quick'].append(
+    ('os-file-destinations', 'MimeBuild', cfg(MAXP='2', MAXE='1', MAXA='1', ENCS='{"qp", "8bit"}', SMIMES='{[key |-> "", inter |-> FALSE], [key |-> "ecdsa", inter |-> FALSE]}',
+                                              FAULTS='{[kind |-> "osfile", slot |-> 0, when |-> ""]}', CCS='<<"crlf", "size900">>')))
 # a producer that fails ONCE (its first invocation) and works afterwards: an unsigned message calls it once, a signed message calls it in the
 # signing render first - whichever render the failure hits, WriteTo must report it
 STAGES['C12']['quick'].append(
@@ -296,6 +302,13 @@ STAGES['C02']['thorough'].append(
 STAGES['C11']['quick'].append(
     ('signed-histories', 'MimeBuild', cfg(MAXP='2', MAXE='1', MAXA='1', ENCS='{"qp"}', SMIMES=KEYS2, CCS='<<"crlf", "utf8", "size900">>',
                                            OPSEQS='{<<a, b, c>> : a \\in {"WriteTo", "Reader", "FailSinkLate", "FailSinkMid", "SkipMw"}, b \\in {"Write", "File", "FailSinkLate", "UpdateReader", "SkipMw", "Sendmail"}, c \\in {"WriteTo", "TempFile", "SkipMw"}}')))
+# a Reader whose first bytes are taken with Read and the rest with io.Copy; messages with a PGP/MIME type and a boundary of the caller, rendered repeatedly
+STAGES['C11']['quick'].append(
+    ('reader-sniff-then-copy', 'MimeBuild', cfg(MAXP='2', MAXE='1', MAXA='1', ENCS='{"qp"}', CCS='<<"crlf", "size900", "size6000">>', ROTS='{0, 1}',
+                                                OPSEQS='{<<"WriteTo", "ReaderCopy">>, <<"ReaderCopy", "ReaderCopy", "WriteTo">>, <<"Reader", "ReaderCopy">>}')))
+STAGES['C11']['quick'].append(
+    ('pgp-types-rerender', 'MimeBuild', cfg(MAXP='2', MAXE='0', MAXA='1', ENCS='{"qp"}', CCS='<<"crlf">>', PGPS='{"encrypted", "signed"}', BOUNDARIES='{"fixed"}', STYLES='{"", "set"}',
+                                            OPSEQS='{<<"WriteTo", "WriteTo", "Reader", "TempFile", "WriteTo", "WriteTo">>}')))
 # header programs whose stored values a render must not touch (several values, one of them empty; no From address)
 STAGES['C11']['quick'].append(
     ('header-programs', 'MimeBuild', cfg(MAXP='1', MAXE='0', MAXA='1', ENCS='{"qp"}', CCS='<<"crlf">>', HDRS=hdrsets(["genmultiempty", "genmulti", "envonly", "ccsome"], ["plain", "long"]),
